@@ -174,7 +174,7 @@ def main(argv):
             ck.seed, ck.tier = int(sd), tier
             ck.rng = random.Random(ck.seed * 1000003 + sum(map(ord, "C20")))
         else:
-            ck.correspond(hb, db, [read_replay(ck.replay)], label="okl-structure", timeout=900, env=env)
+            ck.correspond(hb, db, [read_replay(ck.replay)], label="okl-structure", timeout=3600, env=env)
             ck.finish(META["level_text"])
     n_s = 40 if ck.tier == "quick" else 1500
     n_x = 8 if ck.tier == "quick" else 160
@@ -189,7 +189,7 @@ def main(argv):
     if regen:
         exec_rounds(ck, hb, [("replay", [K for K in kernels if K.name == regen], ["serial", "openmp"] if regen == "kf67" else None)])
         ck.finish(META["level_text"])
-    ck.correspond(hb, db, hs, label="okl-structure", timeout=1800, env=env,
+    ck.correspond(hb, db, hs, label="okl-structure", timeout=3600, env=env,
                   nontrivial=lambda h, impl: any("serial=K" in o for o in impl))
     if hb:
         known = [K for K in kernels if K.name.startswith("kf")]
